@@ -33,10 +33,12 @@ class EngineB:
         s.ovs = {}
 
     def overlay(s, unsafe=False):
-        key = 'ov_unsafe' if unsafe else 'ov'
+        # one overlay for all harnesses: the crate attribute forbid(unsafe_code) is rewritten to deny(unsafe_code) in the scratch
+        # copy because the S_utf8 stub in kani/tz_string.rs needs one `unsafe` expression (lint level only: no effect on codegen)
+        key = 'ov'
         if key not in s.ovs:
             d = os.path.join(s.root, key)
-            common.build_overlay(d, kani=True, replay=False, allow_unsafe=unsafe)
+            common.build_overlay(d, kani=True, replay=False, allow_unsafe=True)
             s.ovs[key] = d
         return s.ovs[key]
 
@@ -131,7 +133,7 @@ def native_playback(B, h, vecs, release=False):
     """run the harness itself natively (cargo kani playback) on the concrete values of a counterexample: the real compiled
     code (no stubs, no model) must exhibit the failing assertion. Only meaningful for harnesses whose stubs are S_unreach."""
     ov = os.path.join(B.root, 'pb_' + re.sub(r'\W', '_', h.name))
-    common.build_overlay(ov, kani=True, replay=False, allow_unsafe=h.unsafe)
+    common.build_overlay(ov, kani=True, replay=False, allow_unsafe=True)
     src = None
     for root, _, files in os.walk(os.path.join(ov, 'src')):
         for f in files:
